@@ -73,7 +73,7 @@ type Env struct {
 	tkey *storetypes.TransientStoreKey
 
 	ak authkeeper.AccountKeeper
-	bk bankkeeper.BaseKeeper
+	bk bankkeeper.Keeper
 	pk paramskeeper.Keeper
 	sk *stakingkeeper.Keeper
 	dk distrkeeper.Keeper
@@ -92,6 +92,8 @@ type Env struct {
 	ctx    sdk.Context
 	height int64
 	halted bool
+
+	ap *appState // non-nil in app mode (appenv.go)
 }
 
 var storeNames = []string{
@@ -149,6 +151,10 @@ func (e *Env) modAddr(name string) sdk.AccAddress { return authtypes.NewModuleAd
 
 // InitGenesis writes the genesis described by g through the modules' own InitGenesis.
 func (e *Env) InitGenesis(g *Genesis) {
+	if e.ap != nil {
+		e.appInitGenesis(g)
+		return
+	}
 	e.ctx = sdk.NewContext(e.cms, tmproto.Header{Height: 1, Time: zt(g.Time)}, false, log.NewNopLogger())
 	ctx := e.ctx
 	e.ak.SetParams(ctx, authtypes.DefaultParams())
@@ -239,6 +245,9 @@ const (
 
 // BeginBlock starts a block at time t (ns since epoch as big int).
 func (e *Env) BeginBlock(t time.Time) (res string, evs sdk.Events, panicMsg string) {
+	if e.ap != nil {
+		return e.appBeginBlock(t)
+	}
 	e.height++
 	em := sdk.NewEventManager()
 	e.ctx = sdk.NewContext(e.cms, tmproto.Header{Height: e.height, Time: t}, false, log.NewNopLogger()).WithEventManager(em)
@@ -264,6 +273,9 @@ func (e *Env) BeginBlock(t time.Time) (res string, evs sdk.Events, panicMsg stri
 }
 
 func (e *Env) EndBlock() (res string, evs sdk.Events, panicMsg string) {
+	if e.ap != nil {
+		return e.appEndBlock()
+	}
 	em := sdk.NewEventManager()
 	ctx := e.ctx.WithEventManager(em)
 	res = ResOK
@@ -286,6 +298,9 @@ func (e *Env) EndBlock() (res string, evs sdk.Events, panicMsg string) {
 
 // RunTx executes one message atomically.
 func (e *Env) RunTx(msg sdk.Msg) (res string, evs sdk.Events, errMsg string) {
+	if e.ap != nil {
+		return e.appRunTx(msg)
+	}
 	if err := msg.ValidateBasic(); err != nil {
 		return ResRej, nil, "validate: " + err.Error()
 	}
@@ -355,6 +370,9 @@ func (e *Env) RunTx(msg sdk.Msg) (res string, evs sdk.Events, errMsg string) {
 // Gov applies parameter changes through x/params Subspace.Update, as the
 // legacy ParameterChangeProposal handler does at the gov end-blocker.
 func (e *Env) Gov(changes []ParamChange) (res string, errMsg string) {
+	if e.ap != nil {
+		return e.appGov(changes)
+	}
 	for _, c := range changes {
 		ss, ok := e.pk.GetSubspace(c.Subspace)
 		if !ok {
